@@ -189,6 +189,9 @@ pub enum Plan {
 }
 
 pub fn star(klen: usize, blen: usize, tier: Tier, plan: Plan) -> Star {
+    // size class: the Full plan grows with (key bits x block bits); for the wide-block ciphers (Threefish-512/1024)
+    // the thorough tier uses the Medium plan so that a star stays below ~10^7 cases per (type, key length)
+    let plan = if plan == Plan::Full && tier == Tier::Thorough && klen * blen > 32 * 32 { Plan::Medium } else { plan };
     const KS: u64 = 1; // stream ids
     const BS_: u64 = 2;
     let t = |n, st| t_set(n, st);
@@ -226,19 +229,19 @@ pub fn star(klen: usize, blen: usize, tier: Tier, plan: Plan) -> Star {
         idx.insert(v.clone(), i);
         i
     }
-    let mut pairs = Vec::new();
-    let mut seen = std::collections::HashSet::new();
+    let mut pairs: Vec<(u32, u32)> = Vec::new();
     for (ks, bs) in &arms {
         let ki: Vec<u32> = ks.iter().map(|k| intern(k, &mut keys, &mut kidx)).collect();
         let bi: Vec<u32> = bs.iter().map(|b| intern(b, &mut blocks, &mut bidx)).collect();
         for &k in &ki {
             for &b in &bi {
-                if seen.insert((k, b)) {
-                    pairs.push((k, b));
-                }
+                pairs.push((k, b));
             }
         }
     }
+    // deduplicate the union of the arms (sort + dedup keeps memory bounded by the pair list itself)
+    pairs.sort_unstable();
+    pairs.dedup();
     // group by key so that one key set-up serves all its blocks (order stays deterministic)
     pairs.sort_by_key(|&(k, _)| k);
     Star { keys, blocks, pairs }
